@@ -80,3 +80,21 @@ def str (bs : Bytes) : String :=
 
 end Wire
 end FwdVerif
+
+namespace FwdVerif
+namespace Wire
+
+/-- `key=value` tokens: look a key up. -/
+def kv (toks : List String) (key : String) : Option String :=
+  toks.findSome? fun t =>
+    let pre := key ++ "="
+    if t.startsWith pre then some ((t.drop pre.length).toString) else none
+
+def kvD (toks : List String) (key dflt : String) : String := (kv toks key).getD dflt
+
+/-- optional hex atom: `~` = none -/
+def optBytes (s : String) : Option (Option Bytes) :=
+  if s = "~" then some none else (bytesOfHex s).map some
+
+end Wire
+end FwdVerif
